@@ -37,6 +37,7 @@ selftest/mutants/F19-reintroduce.patch C01
 selftest/mutants/F20-reintroduce.patch C03 thorough
 selftest/mutants/F21-reintroduce.patch C01
 selftest/mutants/F22-reintroduce.patch C01
+selftest/mutants/F23-reintroduce.patch C07
 seeded/C01-a/patch.diff C01
 seeded/C02-a/patch.diff C02
 seeded/C03-a/patch.diff C03
